@@ -520,7 +520,7 @@ func (x *Exec) runDeferred(fr *Frame, st *State, d *deferRec) {
 // contracts at call sites
 
 func (x *Exec) specEnvFor(con *Contract, sig *types.Signature, fnPkg *types.Package, args []Value, st, old *State) *SpecEnv {
-	env := &SpecEnv{x: x, vars: map[string]SVal{}, st: st, old: old, pkg: fnPkg, lets: map[string]*Expr{}, self: con.Func}
+	env := &SpecEnv{x: x, vars: map[string]SVal{}, st: st, old: old, pkg: fnPkg, lets: map[string]*Expr{}, self: con.Func, free: x.freeOf[con]}
 	var ptypes []types.Type
 	if sig.Recv() != nil {
 		ptypes = append(ptypes, sig.Recv().Type())
@@ -776,8 +776,25 @@ func (x *Exec) verifyFunction(con *Contract) {
 	for _, p := range fn.Params {
 		args = append(args, x.freshVal(st, "arg_"+p.Name(), p.Type()))
 	}
+	var clo *Closure
 	if len(fn.FreeVars) > 0 {
-		unsup("function literal %s verified stand-alone is not supported", con.Func)
+		// a function literal verified on its own: captured variables are arbitrary live cells
+		clo = &Closure{Fn: fn}
+		fb := map[string]freeBinding{}
+		var cells []*Term
+		for _, fv := range fn.FreeVars {
+			bv := x.freshVal(st, "fv_"+fv.Name(), fv.Type())
+			if pt, isPtr := fv.Type().Underlying().(*types.Pointer); isPtr {
+				x.facts = append(x.facts, Gt(bv.T, Int(0)))
+				cells = append(cells, bv.T)
+				fb[fv.Name()] = freeBinding{ptr: bv, elem: pt.Elem()}
+			}
+			clo.Binds = append(clo.Binds, bv)
+		}
+		if len(cells) > 1 {
+			x.facts = append(x.facts, App("distinct", "Bool", cells...))
+		}
+		x.freeOf[con] = fb
 	}
 	for _, g := range con.Ghosts {
 		ghostSorts[g.Name] = g.Sort
@@ -804,7 +821,7 @@ func (x *Exec) verifyFunction(con *Contract) {
 	if x.pendingRegions == nil {
 		x.pendingRegions = []modRegion{}
 	}
-	_, _, fr := x.runFunction(st, fn, args, nil, nil, con, "")
+	_, _, fr := x.runFunction(st, fn, args, clo, nil, con, "")
 	// postconditions at each return site
 	for _, r := range fr.rets {
 		renv := x.specEnvFor(con, fn.Signature, fn.Pkg.Pkg, args, r.st, entry)
@@ -912,7 +929,7 @@ func (x *Exec) monitors(fr *Frame, st *State, key, rel, when string, args []Valu
 		if !(m.Callee == key || m.Callee == rel || strings.HasSuffix(key, "."+m.Callee)) {
 			continue
 		}
-		env := &SpecEnv{x: x, vars: map[string]SVal{}, st: st, old: fr.top.entry, pkg: fr.top.fn.Pkg.Pkg, lets: map[string]*Expr{}}
+		env := &SpecEnv{x: x, vars: map[string]SVal{}, st: st, old: fr.top.entry, pkg: fr.top.fn.Pkg.Pkg, lets: map[string]*Expr{}, free: x.freeOf[con]}
 		// contract parameters of the function under verification remain visible
 		for i, p := range con.Params {
 			if i < len(fr.top.params) {
